@@ -96,7 +96,7 @@ impl<V: Val> Coll for MapC<V> {
         }
     }
     fn state(&self) -> Result<String, String> { self.abs().unwrap().map(|a| a.state) }
-    fn abs_note(&self) -> Option<String> { self.abs().unwrap().ok().and_then(|a| a.slots_err) }
+    fn abs_note(&self) -> Option<String> { self.abs().unwrap().ok().and_then(|a| a.links_err.or(a.slots_err)) }
     fn abs(&self) -> Option<Result<Abs, String>> {
         Some(abs(&self.0.verif_snapshot(), &|e: &(IK, V)| (e.0.k as i64, 0, e.1.to_i64())))
     }
@@ -127,7 +127,7 @@ impl<P: Val> Coll for SetC<P> {
         }
     }
     fn state(&self) -> Result<String, String> { self.abs().unwrap().map(|a| a.state) }
-    fn abs_note(&self) -> Option<String> { self.abs().unwrap().ok().and_then(|a| a.slots_err) }
+    fn abs_note(&self) -> Option<String> { self.abs().unwrap().ok().and_then(|a| a.links_err.or(a.slots_err)) }
     fn abs(&self) -> Option<Result<Abs, String>> {
         Some(abs(&self.0.verif_snapshot(), &|e: &SV<P>| (e.key.k as i64, 0, e.payload.to_i64())))
     }
@@ -155,7 +155,7 @@ impl Coll for KeyC {
         }
     }
     fn state(&self) -> Result<String, String> { self.abs().unwrap().map(|a| a.state) }
-    fn abs_note(&self) -> Option<String> { self.abs().unwrap().ok().and_then(|a| a.slots_err) }
+    fn abs_note(&self) -> Option<String> { self.abs().unwrap().ok().and_then(|a| a.links_err.or(a.slots_err)) }
     fn abs(&self) -> Option<Result<Abs, String>> {
         Some(abs(&self.0.verif_snapshot(), &|e: &(IK, i64)| (e.0.k as i64, e.0.exp as i64, e.1)))
     }
